@@ -1,6 +1,7 @@
 import Orx.Basic
 import Orx.KSFault
 import Orx.IW.FullLedgerRun
+import Orx.GenThms.Own
 /-! # C15 No leaks: consumed collections and internal buffers are released
 
 Allocation ledger of the consuming kinds, written from the (fixed) source: which heap blocks a life-cycle
@@ -8,10 +9,8 @@ allocates and frees. The model's prediction `live = 0` is compared with the coun
 on every case of the C15 stream; the theorems say the ledger is balanced for **every** length and progress point. -/
 namespace Orx.Props.C15
 
-inductive AEv where
-  | alloc (role : Nat)
-  | free (role : Nat)
-  deriving DecidableEq, Repr
+/-- allocation events: the type the translated source logs into (`RS/Own.lean`) -/
+abbrev AEv := Orx.RSO.AEv
 
 /-- roles: 0 the vector's buffer, 1 the split-off remainder, 2 a `fetch_n` Vec, 3 a `BufferIter` Vec -/
 def net (role : Nat) : List AEv → Int
@@ -103,5 +102,91 @@ theorem owning_iterator_no_element_leaked (s : IWF.ISrc) (hown : s.owning = true
   have h := IWF.wrapper_exactly_once s hown n progs σ hσ hb hfin op v
   have hpos : 0 < (IWF.prod s (IWF.owner s n (IWF.run s σ (IWF.init progs)) op).1.core.P).count v := List.count_pos_iff.mpr hv
   exact List.count_pos_iff.mp (by rw [List.count_append]; omega)
+
+
+/-! ## The source itself: the heap blocks the translated owner-side code allocates and releases (`GenThms/Own.lean`) -/
+section Source
+open Orx.RSO Orx.GenO Orx.GenThms.Own
+
+/-- the heap log of a consumed vector before the iterator ends: its buffer (a block iff the capacity is non-zero) -/
+def vecHeap0 (cap : Nat) : List AEv := if 0 < cap then [.alloc 0] else []
+
+/-- a result of the ownership monad that did not fault and whose heap log is balanced for every role -/
+def Balanced {α : Type} (r : Res α) : Prop :=
+  match r with
+  | .ok _ s => ∀ role, net role s.heap = 0
+  | .unwind s => ∀ role, net role s.heap = 0
+  | .fail _ => False
+
+theorem net_free0 (role cap : Nat) : net role (vecHeap0 cap ++ (if 0 < cap then [AEv.free 0] else [])) = 0 := by
+  unfold vecHeap0
+  by_cases h : 0 < cap <;> by_cases h2 : role = 0 <;> simp [net, h, h2]
+
+/-- **`Drop for ConIterOfVec` as in the source releases the consumed vector's buffer on every path**: for every length,
+capacity, counter value (also overshot) and every injected destructor panic — i.e. on the normal and on the unwinding path —
+the translated destructor does not fault and leaves the heap log balanced. (Fix `6a65933`, defect D15, as a theorem about the
+source: moving the release behind the element destruction breaks the unwinding case.) -/
+theorem source_vec_drop_balanced (len cap f : Nat) (o : OSt) (ρ' : Type) (hc : VecCell o len cap)
+    (hu : Untouched o (min o.ctr len) len) (hh : o.heap = vecHeap0 cap) :
+    Balanced ((Vec.drop f (vecS len) : PF ρ' _) o) := by
+  rw [vec_drop len len cap f o ρ' hc hu]
+  cases dpHit o.dpanic (len - min o.ctr len) <;> simp [Balanced, afterVecDrop, hh, net_free0]
+
+/-- **`into_seq_iter` of `ConIterOfVec` as in the source, and a caller that takes any number of elements of the result and
+drops it**: the old buffer and the split-off block are both released; no fault -/
+theorem source_vec_into_seq_balanced (len cap f : Nat) (k : Option Nat) (o : OSt) (ρ' : Type) (hc : VecCell o len cap)
+    (hu : Untouched o (min o.ctr len) len) (hh : o.heap = vecHeap0 cap) :
+    Balanced ((do let it ← Vec.into_seq_iter f (vecS len); seqConsume it k : PF ρ' _) o) := by
+  have hs := seq_consume ⟨min o.ctr len, len - min o.ctr len, len - min o.ctr len, 1⟩ k (afterVecIntoSeq o len cap) ρ'
+    (fun p h1 h2 => (hu p h1 (by simp only at h2; omega)).2)
+  dsimp only at hs
+  simp only [bind, PF.bind, vec_into_seq_iter len cap f o _ hc hu]
+  rw [hs]
+  have key : ∀ role, net role (((vecHeap0 cap ++ (if min o.ctr len < len then [AEv.alloc 1] else [])) ++ (if 0 < cap then [AEv.free 0] else []))
+      ++ (if 0 < len - min o.ctr len then [AEv.free 1] else [])) = 0 := by
+    intro role
+    have e : (0 < len - min o.ctr len) = (min o.ctr len < len) := propext (by omega)
+    simp only [e]
+    unfold vecHeap0
+    by_cases h : 0 < cap <;> by_cases h1 : min o.ctr len < len <;> by_cases h2 : role = 0 <;> by_cases h3 : role = 1 <;>
+      simp [net, net_append, h, h1, h2, h3] <;> omega
+  split <;> simp only [Balanced] <;> intro role <;> simpa [afterVecIntoSeq, hh] using key role
+
+/-- **`Drop for ConIterOfArray` as in the source**: the temporary vector of the remaining elements is released, also when
+one of their destructors panics; an overshot counter allocates nothing -/
+theorem source_array_drop_balanced (N f : Nat) (o : OSt) (ρ' : Type) (hc : ArrCell o N) (hu : Untouched o (min o.ctr N) N)
+    (hh : o.heap = []) : Balanced ((Arr.drop f N arrS : PF ρ' _) o) := by
+  rw [arr_drop N f o ρ' hc hu]
+  have key : ∀ role, net role (if o.ctr < N then [AEv.alloc 1, AEv.free 1] else []) = 0 := by
+    intro role; by_cases h : o.ctr < N <;> by_cases h2 : role = 1 <;> simp [net, h, h2]
+  by_cases h : o.ctr ≤ N ∧ dpHit o.dpanic (N - o.ctr) = true
+  · simp [h, Balanced, afterArrDrop, hh, key]
+  · by_cases h2 : o.ctr ≤ N
+    · have hB : dpHit o.dpanic (N - o.ctr) = false := by simpa [h2] using h
+      simp [h2, hB, Balanced, afterArrDrop, hh, key]
+    · simp [h2, Balanced, afterArrDrop, hh, net]
+
+/-- **`into_seq_iter` of `ConIterOfArray` as in the source and a caller that takes any number of elements and drops the
+result** -/
+theorem source_array_into_seq_balanced (N f : Nat) (k : Option Nat) (o : OSt) (ρ' : Type) (hc : ArrCell o N)
+    (hu : Untouched o (min o.ctr N) N) (hh : o.heap = []) :
+    Balanced ((do let it ← Arr.into_seq_iter f N arrS; seqConsume it k : PF ρ' _) o) := by
+  have hs := fun s' (hd : s'.dr = o.dr) => seq_consume (arrRest N (min o.ctr N)) k s' ρ'
+    (fun p h1 h2 => by
+      rw [hd]
+      unfold arrRest at h1 h2
+      by_cases h : min o.ctr N < N
+      · simp only [h, ↓reduceIte] at h1 h2; exact (hu p h1 (by omega)).2
+      · simp only [h, ↓reduceIte] at h1 h2; omega)
+  have hs1 := hs { o with evs := o.evs ++ [.ld (.ctr 0) .acquire o.ctr], vac := o.vac ++ RSO.rangeList (min o.ctr N) N, heap := o.heap ++ (if min o.ctr N < N then [.alloc 1] else []) } rfl
+  simp only [bind, PF.bind, arr_into_seq_iter N f o _ hc hu, hs1]
+  have key : ∀ role, net role ((if min o.ctr N < N then [AEv.alloc 1] else []) ++ (if 0 < (arrRest N (min o.ctr N)).cap then [AEv.free (arrRest N (min o.ctr N)).role] else [])) = 0 := by
+    intro role
+    have e : (0 < N - min o.ctr N) = (min o.ctr N < N) := propext (by omega)
+    unfold arrRest
+    by_cases h1 : min o.ctr N < N <;> by_cases h3 : role = 1 <;> simp [net, h1, h3, e]
+  split <;> simp only [Balanced] <;> intro role <;> simpa [hh] using key role
+
+end Source
 
 end Orx.Props.C15
